@@ -431,6 +431,9 @@ func encoderSetters(c *explore.Ctx) {
 		{"malformed raw message", setterProbe{R: json.RawMessage(`{"a":1,}`), M: map[string]int{"k": 1}, S: "s"}},
 		{"raw message with trailing garbage", []any{json.RawMessage(`1 2`)}},
 		{"empty raw message", map[string]json.RawMessage{"e": json.RawMessage(``)}},
+		// after values that were refused, a valid one: a refusal says nothing about the next value
+		{"valid raw message after refused ones", setterProbe{R: json.RawMessage(`{"k":[true , null]}`), M: map[string]int{"z": 1}, S: "ok"}},
+		{"plain value after refused ones", []any{"x", 1.5, map[string]any{"k": json.RawMessage(`[ ]`)}}},
 	}
 	for _, pr := range probes {
 		buf.Reset()
@@ -455,7 +458,7 @@ func encoderSetters(c *explore.Ctx) {
 			want = append(want, '\n')
 		}
 		got := buf.Bytes()
-		if sorted || pr.name != "valid raw message" {
+		if sorted || !strings.HasPrefix(pr.name, "valid raw message") {
 			if !bytes.Equal(got, want) {
 				c.Fail("setters:bytes-differ:"+pr.name, "after %s, Encode(%s) writes %q; the flags these calls select give %q", desc, pr.name, got, want)
 			}
@@ -731,7 +734,7 @@ func Spec() *explore.Spec {
 			{Name: "byte-strings", ShardDepth: 3, Body: byteStrings, Doc: "all byte strings up to length 6 (quick) / 7 (thorough) over a 27-byte class alphabet; every syntax-only consumer on all strings up to length 4 / 5"},
 			{Name: "token-strings", ShardDepth: 3, Body: tokenStrings, Doc: "all token sequences up to 6 / 8 over 16 tokens; consumers up to 4 / 5"},
 			{Name: "byte-sweep", ShardDepth: 2, Body: byteSweep, Doc: "21 small documents and streams with white space in every kind of gap: every byte value 0..255 substituted at, and inserted before, every position (and appended); Valid and every syntax-only consumer compared with encoding/json on each"},
-			{Name: "encoder-setters", ShardDepth: 2, Body: encoderSetters, Doc: "every history of 0-3 calls of the Encoder setters (EscapeHTML, SortMapKeys, TrustRawMessage, AppendNewline x on/off) followed by 4 probes (valid, malformed, trailing-garbage and empty RawMessage values): error presence and bytes equal Append with the flags the last call of each setter selects - an invalid RawMessage is rejected unless trust is on"},
+			{Name: "encoder-setters", ShardDepth: 2, Body: encoderSetters, Doc: "every history of 0-3 calls of the Encoder setters (EscapeHTML, SortMapKeys, TrustRawMessage, AppendNewline x on/off) followed by 6 probes on the same Encoder (valid, malformed, trailing-garbage and empty RawMessage values, then two valid values again): error presence and bytes equal Append with the flags the last call of each setter selects - an invalid RawMessage is rejected unless trust is on"},
 			{Name: "string-sweep", ShardDepth: 2, Body: stringSweep, Doc: "string body length 0..40/72 x every position x all 256 byte values x 5 input-wide contexts; escapes at every position"},
 			{Name: "unicode-escapes", ShardDepth: 2, Body: unicodeEscapes, Doc: "\\uXXXX with every pair of hex-digit classes at every digit position, at every offset 0..18"},
 			{Name: "numbers", ShardDepth: 3, Body: numbers, Doc: "all strings up to length 6 over {- + 0 1 9 . e E} in 4 contexts"},
